@@ -406,27 +406,28 @@ func (v *collator_[V]) rankComplex(first, second complex128) Rank {
 	if first == second {
 		return EqualRank
 	}
-	switch {
-	case cmp.Abs(first) < cmp.Abs(second):
-		// The magnitude of the first vector is less than the second.
-		return LesserRank
-	case cmp.Abs(first) > cmp.Abs(second):
-		// The magnitude of the first vector is greater than the second.
-		return GreaterRank
-	default:
-		// The magnitudes of the vectors are equal.
-		switch {
-		case cmp.Phase(first) < cmp.Phase(second):
-			// The phase of the first vector is less than the second.
-			return LesserRank
-		case cmp.Phase(first) > cmp.Phase(second):
-			// The phase of the first vector is greater than the second.
-			return GreaterRank
-		default:
-			// The phases of the vectors are also equal.
-			return EqualRank
-		}
+
+	// Rank by the magnitudes of the vectors.
+	var ranking = v.rankFloats(cmp.Abs(first), cmp.Abs(second))
+	if ranking != EqualRank {
+		return ranking
 	}
+
+	// The magnitudes are equal so rank by the phases of the vectors.  NOTE:
+	// Adding zero turns a negative zero part into a positive zero so that equal
+	// vectors always have the same phase.
+	ranking = v.rankFloats(cmp.Phase(first+0), cmp.Phase(second+0))
+	if ranking != EqualRank {
+		return ranking
+	}
+
+	// The computed magnitudes and phases cannot tell the vectors apart (they
+	// overflow or round to the same values) so rank by the parts.
+	ranking = v.rankFloats(real(first), real(second))
+	if ranking != EqualRank {
+		return ranking
+	}
+	return v.rankFloats(imag(first), imag(second))
 }
 
 func (v *collator_[V]) rankFloats(first, second float64) Rank {
